@@ -419,7 +419,8 @@ fcppt::container::raw_vector::object<T, A>::erase(
     this->impl_.last_ -= _right - _left;
   }
 
-  return _right;
+  // As with std::vector: the position of the element that followed the erased range.
+  return _left;
 }
 
 template <typename T, typename A>
